@@ -1404,3 +1404,30 @@ def counting_against_moving_bound(prog, chk, rid, classes):
                                 "each other, the body runs about half as often as the difference says (`[1,2,3,4,5] = [10,20]` keeps three "
                                 "elements)" % (q.no_casts(f.r(stepped[0].node))[:20], sorted(members)[0], moved[0]), evals=2)
     chk.ok(rid, "loops", "%d loops that test a counter against a size member: none changes that member in its body" % n_loops, "", "store / callee-effect scan", nontrivial=n_loops > 0)
+
+
+# ----------------------------------------------------------------------------- find walks the bucket chain
+
+def find_walks_chain(prog, chk, rid, classes):
+    """A key lives in the collision chain of its bucket (`nextCell`), not along the insertion-order list (`next`): the search that
+    starts at `data[hash % capacity]` has to move along `nextCell` only - along `next` it still ends, and still finds keys that are
+    alone in their bucket, but misses every key that is not the head of a longer chain."""
+    chk.rule(rid, "WHO: in find() of the hash containers the walk that starts at a bucket head is advanced only by `->nextCell`", floor=len(classes))
+    for cls in classes:
+        for tn, fs in sorted(class_insts(prog, cls).items()):
+            for f in [g for g in fs if g.short == "find" and g.blocks]:
+                defs = q.local_defs(f)
+                for did, dl in defs.items():
+                    heads = [init for kind, nd, init in dl if init is not None and re.search(r"(this->)?data\[", q.no_casts(f.r(init)))]
+                    if not heads:
+                        continue
+                    name = next((n_["ref"]["n"] for n_ in f.nodes if n_["k"] == "DeclRefExpr" and n_["ref"].get("id") == did), "?")
+                    steps = [(nd, init) for kind, nd, init in dl if init is not None and init not in heads and kind != "addr"]
+                    bad = [(nd, init) for nd, init in steps if q.no_casts(f.r(init)).strip("()") != "%s->nextCell" % name]
+                    if bad:
+                        chk.bad(rid, f, "chain-walk-leaves-bucket:" + q.no_casts(f.r(bad[0][1]))[:30], f.where(bad[0][0]),
+                                "the search that starts at the bucket head moves on with `%s = %s`: that follows the insertion order, not the "
+                                "bucket's collision chain - a key that shares its bucket with a later one is reported absent, re-inserting it "
+                                "stores it twice" % (name, q.no_casts(f.r(bad[0][1]))[:40]), evals=len(steps) + 1)
+                    else:
+                        chk.ok(rid, f, "bucket walk advances along nextCell (%d step site(s))" % len(steps), "%s:%s" % (f.file, f.line), "stores to the walk variable", evals=len(steps) + 1)
